@@ -30,7 +30,7 @@ def tc19(rng, st, s1, v1, s2, v2, vrsrc=None, svr=None, vr=None, sdiff=None, dif
         f = gen.set_bits(f, 81, 81, sdiff)
     if diff is not None:
         f = gen.set_bits(f, 82, 88, diff)
-    return f
+    return gen.selfsim_tail(rng, f, 0.05)
 
 
 def vectors(ctx):
